@@ -96,7 +96,7 @@ Lemma fx_facts :
 Proof. repeat split; vm_compute; reflexivity. Qed.
 
 (** two histories accepting the same files: the adds above, and the adds in reverse order interleaved with queries
-    and conversions (which re-sort, edit the first file's affine, flip and set the dirty flag along the way) *)
+    and conversions (which re-sort, flip and set the dirty flag along the way) *)
 Definition fx_h1 : list op := fx_adds.
 Definition fx_h2 : list op :=
   firstn 5 (rev fx_adds) ++ [OGetShape; OToNifti (Some true) true] ++ skipn 5 (rev fx_adds) ++
@@ -106,11 +106,11 @@ Lemma fx_histories :
   Permutation (accepted (init true true) fx_h1) (accepted (init true true) fx_h2) /\
   ids (files_info (run (init true true) fx_h1)) = [3; 4; 1; 6; 0; 7; 2; 5] /\
   ids (files_info (run (init true true) fx_h2)) = [1; 0; 3; 2; 5; 4; 7; 6] /\
-  aff_edits (run (init true true) fx_h1) = [] /\ aff_edits (run (init true true) fx_h2) <> [].
+  shape_dirty (run (init true true) fx_h1) = true /\ shape_dirty (run (init true true) fx_h2) = false.
 Proof.
   split.
   - assert (E1 : accepted (init true true) fx_h1 = map g_file fx_gs) by (vm_compute; reflexivity).
     assert (E2 : accepted (init true true) fx_h2 = rev (map g_file fx_gs)) by (vm_compute; reflexivity).
     rewrite E1, E2. apply Permutation_rev.
-  - repeat split; try (vm_compute; reflexivity). intros E. vm_compute in E. discriminate E.
+  - repeat split; vm_compute; reflexivity.
 Qed.
